@@ -1,12 +1,15 @@
 import AlgoVerif.Model.C05
 import AlgoVerif.Model.C05Binomial
 import AlgoVerif.Model.C05Fibonacci
-/-! Line-protocol component for C05 (keys `Int`, values `String`; `ord=min|max` picks the comparator). -/
+/-! Line-protocol component for C05 (keys `Int`, values `String`; `ord=min|max|mind|maxd7` picks the comparator). -/
 namespace AlgoVerif.C05.Driver
 open AlgoVerif AlgoVerif.C05
 
 def cmpMin (a b : Int) : Int := if a < b then -1 else if a > b then 1 else 0
 def cmpMax (a b : Int) : Int := if a > b then -1 else if a < b then 1 else 0
+/-- non-normalised comparators: only the sign may matter -/
+def cmpMinD (a b : Int) : Int := a - b
+def cmpMaxD7 (a b : Int) : Int := 7 * (b - a)
 def eqS (a b : String) : Bool := a == b
 
 def showRes : Res Int String → String
@@ -115,7 +118,11 @@ def runMaxDeg (ops : List String) : List String :=
 
 def runCase (hdr : List String) (ops : List String) : List String :=
   let cap := headerNat hdr "cap" 0
-  let cmp := if headerGet hdr "ord" == some "max" then cmpMax else cmpMin
+  let cmp := match headerGet hdr "ord" with
+    | some "max" => cmpMax
+    | some "mind" => cmpMinD
+    | some "maxd7" => cmpMaxD7
+    | _ => cmpMin
   match headerGet hdr "comp" with
   | some "ibinary" => runGeneric (IBinary.step cmp eqS) dumpBinary (IBinary.new cap) ops
   | some "ibinomial" => runGeneric (IBinomial.step cmp eqS) dumpBinomial (IBinomial.new cap) ops
